@@ -131,6 +131,15 @@ def execute(case):
     df = gen.build_frame(spec)
     pre = canon.frame_cells(df)
     names = list(pre)
+    if names and len(repr(spec)) % 5 == 0:
+        # the receiver was used for a grouped summary earlier (group_by marks the frame in place): row subsetting is not affected by that
+        gcols = [n_ for n_ in names if n_ != "_rid_" and canon.dtype_kind(dict.__getitem__(df, n_)) not in ("object", "bytes", "other")][:1 + len(spec) % 2]
+        if gcols:
+            try:
+                df.group_by(*gcols).aggregate(n=di.count())
+                res.cls("grouped-receiver")
+            except Exception:
+                pass
     pre_rows = list(zip(*[pre[n] for n in names])) if names else []
     expected = None     # list of input positions
     check_set_only = False
@@ -219,6 +228,16 @@ def execute(case):
             if len(rids) != k or len(set(rids)) != len(rids) or rids != sorted(rids) or any(not (0 <= r < nrow) for r in rids):
                 res.violate("sample:bad-positions", f"sample({n}) of {nrow} rows gave rids {rids}")
             expected = rids
+            if nrow >= 1500 and "big" in case.get("tags", []):
+                # small peeks at a big frame, many times: a sample never contains a row twice
+                for rep in range(500 if nrow >= 10000 else 60):
+                    rng_n = 5 if rep % 2 else 10
+                    peek = df.sample(rng_n)
+                    r2 = [c[1] for c in canon.col_cells(dict.__getitem__(peek, "_rid_"))]
+                    if len(set(r2)) != len(r2) or len(r2) != min(nrow, rng_n) or r2 != sorted(r2):
+                        res.violate("sample:bad-positions:repeated-small-peeks", f"sample({rng_n}) of {nrow} rows gave rids {r2} (draw {rep})")
+                        break
+                res.count("sample-repeated-peeks")
         elif op == "drop_na":
             cols = case["cols"]
             ed = case.get("edit")
